@@ -90,6 +90,22 @@ def run(chk, replay=None):
     ngraphs = 150 if chk.tier == 'quick' else 1500
     nmax = 10 if chk.tier == 'quick' else 24
     graphs = [gen_graph(rng, nmax) for _ in range(ngraphs)]
+    # large networks (the searches are unbounded): a long chain, a broom (hub, spokes, a tip on every spoke), a random tree
+    def big(kind):
+        if kind == 'long-chain':
+            n = rng.randint(90, 130); es = [(i, i + 1) for i in range(n - 1)]
+        elif kind == 'broom':
+            k = rng.randint(66, 80); n = 1 + 2 * k
+            es = [(0, 1 + i) for i in range(k)] + [(1 + i, 1 + k + i) for i in range(k)]
+        else:
+            n = rng.randint(90, 130); es = [(rng.randrange(i), i) for i in range(1, n)]
+            cut = rng.randrange(1, n); es = [e for e in es if e[1] != cut]
+        rng.shuffle(es) if kind != 'broom' else None
+        es = [(b, a) if rng.random() < 0.5 else (a, b) for a, b in es]
+        qs = [(0, n - 1), (n - 1, 0), (n - 1, n - 2), (n // 2, n - 1), (n - 1, n // 2 + 1)] + [(rng.randrange(n), rng.randrange(n)) for _ in range(300)]
+        qs += [(b, a) for a, b in qs[:100]]
+        return n, es, qs, kind
+    graphs += [big(k) for k in (['long-chain', 'broom', 'big-tree'] if chk.tier == 'quick' else ['long-chain', 'broom', 'big-tree'] * 5)]
     glines = ['G %d E:%s Q:%s' % (n, pairs(es), pairs(qs)) for n, es, qs, _ in graphs]
     _, gi, _ = run_lines(hx, [], glines)
     mlines = []
@@ -151,7 +167,7 @@ def run(chk, replay=None):
                 orafail.append((cl, 'key collision of the implementation replayed on real objects: cached answers %s, expected 10' % m.group(2), '10'))
     chk.cov.update(evaluations=len(klines) + queries + 5, distinct_nontrivial=len({l for l in glines}),
                    rule='key: hook-free call of AnalyserModelImpl::equivalenceCacheKey on %d word pairs (witness, boundary, random aligned); '
-                        'graphs: %d generated connection graphs (chains, stars, cycles, parts, random, duplicates), every ordered pair of variables in shuffled order plus repetitions, '
+                        'graphs: %d generated connection graphs (chains, stars, cycles, parts, random, duplicates; long chains, brooms and trees of 90-160 variables with 400 queried pairs), every ordered pair of variables in shuffled order plus repetitions, '
                         'both query kinds; non-trivial = distinct graph+query-order lines' % (len(klines), ngraphs),
                    samples=[glines[0], gi[0], gm[0], wl, arena], traces_validated_against_impl=len(klines) - len(kdis) + len(glines) - len(gdis),
                    exhaustive=False, graph_kinds=kinds, queries=queries, arena_witness=arena)
